@@ -19,7 +19,7 @@ pub fn property() -> Property {
     Property {
         id: "C14",
         level: "exploration",
-        rule: "Exhaustive matrix of real TLS handshakes against local openssl servers (threads on 127.0.0.1; names mapped with the resolver hook H2) presenting fixture certificates: {leaf chained to the private CA, self-signed, unknown issuer, expired CA-signed leaf, impostor chain = self-signed leaf followed by the genuine certificate and its CA} x {URL host matches the certificate name, differs} x accept_invalid_certs {off,on} x accept_invalid_hostnames {off,on} x private CA added as root {no,yes} x path {direct https, CONNECT through a real loopback proxy thread, https proxy (TLS to the proxy AND nested TLS to the origin; the proxy's certificate is varied separately)} x where the flags/root were set {session, request, clone of the session, session/request with every flag first switched on and then set to its final value, unrelated setters on session and request while the settings are shared with live requests, and a SIBLING request / the ORIGINAL session that must stay unaffected}; plus 'validity window' cells (certificates minted at run time that expired 90 s / 1 h / 1 d ago or become valid in 2 min / 1 h / 1 d are rejected, one valid from yesterday to tomorrow is accepted), 'sibling roots' (two sessions/requests that each added a different root, handshaking one after the other in both orders, keep their own anchors) and 'pinned leaf' cells: the self-signed certificate the server presents (valid, or expired) is itself added as a root - validity period and name must still be enforced (whether a valid pinned leaf is anchored is backend-specific: recorded, not judged). Oracle: truth table ok = (anchored or certs_off) and (in validity or certs_off) and (name ok or names_off or certs_off), evaluated with the flags of THAT request; safety (success => ok) is always judged, liveness (ok => success) for the CA->leaf topology on DNS names and whenever certs_off waives everything; the error kind of rejections is recorded; a rejected handshake must not have delivered the request to the server. Non-trivial: every cell; distinct = hash(cell).",
+        rule: "Exhaustive matrix of real TLS handshakes against local openssl servers (threads on 127.0.0.1; names mapped with the resolver hook H2) presenting fixture certificates: {leaf chained to the private CA, self-signed, unknown issuer, expired CA-signed leaf, impostor chain = self-signed leaf followed by the genuine certificate and its CA} x {URL host matches the certificate name, differs} x accept_invalid_certs {off,on} x accept_invalid_hostnames {off,on} x private CA added as root {no,yes} x path {direct https, CONNECT through a real loopback proxy thread, https proxy (TLS to the proxy AND nested TLS to the origin; the proxy's certificate is varied separately)} x where the flags/root were set {session, request, clone of the session, session/request with every flag first switched on and then set to its final value, unrelated setters on session and request while the settings are shared with live requests, and a SIBLING request / the ORIGINAL session that must stay unaffected}; plus (rustls flavour) 'foreign key' cells - genuine chain, handshake signed with another key: rejected whatever the host-name waiver says -, 'validity window' cells (certificates minted at run time that expired 90 s / 1 h / 1 d ago or become valid in 2 min / 1 h / 1 d are rejected, one valid from yesterday to tomorrow is accepted), 'sibling roots' (two sessions/requests that each added a different root, handshaking one after the other in both orders, keep their own anchors) and 'pinned leaf' cells: the self-signed certificate the server presents (valid, or expired) is itself added as a root - validity period and name must still be enforced (whether a valid pinned leaf is anchored is backend-specific: recorded, not judged). Oracle: truth table ok = (anchored or certs_off) and (in validity or certs_off) and (name ok or names_off or certs_off), evaluated with the flags of THAT request; safety (success => ok) is always judged, liveness (ok => success) for the CA->leaf topology on DNS names and whenever certs_off waives everything; the error kind of rejections is recorded; a rejected handshake must not have delivered the request to the server. Non-trivial: every cell; distinct = hash(cell).",
         assumptions: &["OpenSSL (server side and native-tls client side) / rustls implement the checks they are asked to perform; fixtures are what their names say (verified with `openssl verify` when generated)", "the system trust store does not contain the private CA (cells 'root not added' would reveal it)"],
         min_nontrivial: |t| t.pick(300, 1_000),
         gens,
@@ -43,6 +43,8 @@ fn gens(tier: Tier) -> Vec<Gen> {
         Gen { name: "connect-proxy", count: direct_cells(), exhaustive: true, run: run_connect_proxy },
         // https proxy: proxy certificate {good for pgood.test, wrong name, selfsigned} x origin cells (strided in quick)
         Gen { name: "ip-literal-hosts", count: (2 * 2 * 2 * 2 * 2 * 2) as u64, exhaustive: true, run: run_ip_literal },
+        #[cfg(feature = "rustls")]
+        Gen { name: "foreign-key", count: (2 * 2 * 2 * 2) as u64, exhaustive: true, run: run_foreign_key },
         Gen { name: "validity-window", count: (7 * 2 * 2) as u64, exhaustive: true, run: run_validity_window },
         Gen { name: "sibling-roots", count: (2 * 2 * 2) as u64, exhaustive: true, run: run_sibling_roots },
         Gen { name: "pinned-leaf", count: 2 * 2 * 2 * 2 * 3, exhaustive: true, run: run_pinned },
@@ -534,4 +536,90 @@ fn run_validity_window(ctx: &mut Ctx, _rng: &mut Rng, index: u64) {
     ctx.count("validity_window_cells", 1);
     judge(ctx, "target", in_validity, in_validity, &out, saw, &|| format!("certificate minted now, {what} (chained to the added root, name matches, accept_invalid_hostnames={names_off}, flags on the {})", if on_request { "request" } else { "session" }));
     ctx.nontrivial(format!("vw{index}").as_bytes());
+}
+
+/// Proof of key possession (rustls flavour only: attohttpc brings its own certificate verifier
+/// there). The server presents the genuine chain (`good` + CA) but signs the handshake with a
+/// DIFFERENT private key - an impostor replaying a public certificate. Whatever host-name waiver is
+/// set, the handshake must fail (TLS 1.2-only server and TLS 1.3-capable server).
+#[cfg(feature = "rustls")]
+fn run_foreign_key(ctx: &mut Ctx, _rng: &mut Rng, index: u64) {
+    use rustls::pki_types::{CertificateDer, PrivateKeyDer};
+    use std::sync::Arc;
+    #[derive(Debug)]
+    struct Fixed(Arc<rustls::sign::CertifiedKey>);
+    impl rustls::server::ResolvesServerCert for Fixed {
+        fn resolve(&self, _hello: rustls::server::ClientHello<'_>) -> Option<Arc<rustls::sign::CertifiedKey>> {
+            Some(self.0.clone())
+        }
+    }
+    let tls12_only = index % 2 == 0;
+    let names_off = (index / 2) % 2 == 1;
+    let on_request = (index / 4) % 2 == 1;
+    let genuine_key = (index / 8) % 2 == 1; // control: the right key, must succeed
+    let dir = crate::bridge::cert_dir();
+    let mut chain: Vec<CertificateDer<'static>> = Vec::new();
+    for f in ["good.cert.pem", "ca.cert.pem"] {
+        let pem = std::fs::read(dir.join(f)).expect("fixture");
+        for c in rustls_pemfile::certs(&mut &pem[..]) {
+            chain.push(c.expect("certificate"));
+        }
+    }
+    let key_pem = std::fs::read(dir.join(if genuine_key { "good.key.pem" } else { "proxy.key.pem" })).expect("key fixture");
+    let key: PrivateKeyDer<'static> = rustls_pemfile::private_key(&mut &key_pem[..]).expect("key pem").expect("a key");
+    let provider = Arc::new(rustls::crypto::aws_lc_rs::default_provider());
+    let signing = provider.key_provider.load_private_key(key).expect("signing key");
+    let ck = Arc::new(rustls::sign::CertifiedKey::new(chain, signing));
+    let versions: &[&rustls::SupportedProtocolVersion] = if tls12_only { &[&rustls::version::TLS12] } else { rustls::ALL_VERSIONS };
+    let cfg = rustls::ServerConfig::builder_with_provider(provider).with_protocol_versions(versions).expect("versions").with_no_client_auth().with_cert_resolver(Arc::new(Fixed(ck)));
+    let cfg = Arc::new(cfg);
+    let srv: Server<ServerResult> = Server::spawn(move |mut s: TcpStream| {
+        let mut res = ServerResult::default();
+        let mut conn = match rustls::ServerConnection::new(cfg.clone()) {
+            Ok(c) => c,
+            Err(e) => {
+                res.handshake_error = Some(format!("{e}"));
+                return res;
+            }
+        };
+        let mut tls = rustls::Stream::new(&mut conn, &mut s);
+        let mut buf = [0u8; 2048];
+        loop {
+            match std::io::Read::read(&mut tls, &mut buf) {
+                Ok(0) => break,
+                Ok(n) => {
+                    res.handshake_ok = true;
+                    res.request.extend_from_slice(&buf[..n]);
+                    if res.request.windows(4).any(|w| w == b"\r\n\r\n") {
+                        res.request_complete = true;
+                        let _ = std::io::Write::write_all(&mut tls, OK_RESPONSE);
+                        break;
+                    }
+                }
+                Err(e) => {
+                    res.handshake_error = Some(format!("{e}"));
+                    break;
+                }
+            }
+        }
+        res
+    });
+    let host = "good.test";
+    let url = format!("https://{host}/c14");
+    set_resolver_override(host, Some(vec![SocketAddr::from(([127, 0, 0, 1], srv.port))]));
+    let mut s = Session::new();
+    s.connect_timeout(std::time::Duration::from_secs(5));
+    s.read_timeout(std::time::Duration::from_secs(5));
+    let rb = if on_request {
+        s.post(&url).add_root_certificate(tlsfix::load_cert("ca")).danger_accept_invalid_hostnames(names_off)
+    } else {
+        s.add_root_certificate(tlsfix::load_cert("ca"));
+        s.danger_accept_invalid_hostnames(names_off);
+        s.post(&url)
+    };
+    let out = outcome(rb.text("c14 body").send());
+    let saw = saw_request(&srv.finish());
+    ctx.count(if genuine_key { "genuine_key_controls" } else { "foreign_key_handshakes" }, 1);
+    judge(ctx, "target", genuine_key, genuine_key, &out, saw, &|| format!("the server presents the genuine certificate chain but signs the handshake with {} ({} server, accept_invalid_hostnames={names_off}, flags on the {})", if genuine_key { "the matching key (control)" } else { "a FOREIGN key" }, if tls12_only { "TLS 1.2-only" } else { "TLS 1.3-capable" }, if on_request { "request" } else { "session" }));
+    ctx.nontrivial(format!("fk{index}").as_bytes());
 }
